@@ -157,6 +157,9 @@ type fnCtx struct {
 	recMeasures  []string
 	heapElemTy   map[string]types.Type
 	alloc0       string
+	specSides    *[]string
+	sitePos      token.Pos
+	curPos       token.Pos // position of the clause being evaluated (lexical resolution of shadowed locals)
 	curSkolems   []modelInput
 	boundCalls   map[int]bool
 	boundAfters  map[int]bool
@@ -596,6 +599,13 @@ func (fc *fnCtx) funcName() string {
 
 func (fc *fnCtx) assume(st *State, fact string) {
 	if fact == "true" || fact == "" {
+		return
+	}
+	if fc.specMode && fc.top.specSides != nil {
+		// inside a specification: facts about the code being inlined (callee postconditions,
+		// representation facts) must not prune paths of the inlined function; they are
+		// collected as side conditions of the clause being evaluated
+		*fc.top.specSides = append(*fc.top.specSides, implies(st.pc, fact))
 		return
 	}
 	st.pc = fc.defs.Define("pc", "Bool", and(st.pc, fact))
@@ -1150,6 +1160,7 @@ func (fc *fnCtx) enterLoop(li *loopInfo, st *State) {
 		}
 	}
 	fc.top.curLoop = li
+	fc.top.curPos = token.NoPos
 	defer func() { fc.top.curLoop = nil }()
 	// the function's frame holds on entry to the loop (needed by the framed havoc below)
 	if fc.contract != nil && fc.contract.HasMod {
@@ -1264,6 +1275,7 @@ func (fc *fnCtx) closeLoop(li *loopInfo, st *State, from *ssa.BasicBlock) {
 		return
 	}
 	fc.top.curLoop = li
+	fc.top.curPos = token.NoPos
 	defer func() { fc.top.curLoop = nil }()
 	if fc.contract != nil && fc.contract.HasMod && li.hdrState != nil && fc.top.framedBases[li.hdrState.heapBase] {
 		fc.loopFrameObligations(li, st, "preserved")
